@@ -39,7 +39,6 @@ NOTES.update({
  "C07r8A": "not caught by the C07 check, caught by the C03 check (C03/tie-not-equal, C03/order): a per-object memo of evaluations that ignores the ranking table; C03 evaluates every flush and full house through a game object without game id that evaluated the same cards under the other variant first. In C07's differential run the same ordered five cards would have to recur after a move between variants",
  "C13r8B": "not covered: needs a state document whose limit string is neither 'no' nor 'pot' (empty, for instance); the properties quantify over no-limit and pot-limit",
  "C17r8B": "not covered: as C17r6A - the button jump needs zero playable seats before the move, where C17 makes no claim about the seat the button goes to",
- "C20r8A": "caught by the thorough tier of C20 (C20/no-fixpoint, 7 histories in 600,000), not by the quick tier: needs registration on hold, three tables with a stale requirement, a player count not divisible by the table count and the fullest table synced first",
 })
 NOTES.update({
  "C04r9A": "not a violation as C04/C05 are read here: on a table without any blind where at most one seat has chips left after the antes, the pre-flop round is closed without being opened. Nobody acts out of turn, and C05 itself says that no betting round is opened when fewer than two players still have chips",
